@@ -222,6 +222,11 @@ func (c *Client) DoAndDecode(dst interface{}, req *http.Request) error {
 	case resp.StatusCode == http.StatusOK:
 		return json.Unmarshal(buf, dst)
 
+	// A redirect without a Location header cannot be followed by
+	// anyone: it is a failed request, not an (empty) result.
+	case isRedirectStatus(resp.StatusCode) && resp.Header.Get("Location") == "":
+		return newTransactionError(req, resp, buf)
+
 	// If the caller uses a client with a custom CheckRedirect
 	// func, Do() might return the 3xx response instead of
 	// following it.
